@@ -52,20 +52,20 @@ decreasing_by
   all_goals omega
 
 /-- `read` when standard input is the chunked script descriptor -/
-def execReadC (c : CState) (raw : Bool) (names : List String) : CState :=
+def execReadC (c : CState) (d : Nat) (raw : Bool) (names : List String) : CState :=
   if c.st.shared then
-    let r := readLineCGo raw false [] c.src []
+    let r := readLineCGo d raw false [] c.src []
     let used := c.src.flatten.length - r.2.2.flatten.length      -- bytes consumed (for the offset)
     { st := { c.st with pos := c.st.pos + used,
                         vars := readAssign names r.1 r.2.1 c.st.vars,
                         status := readExit r.1 r.2.1,
                         hitEof := c.st.hitEof || (c.st.shared && r.2.1 != .found) },
       src := r.2.2 }
-  else { c with st := execRead c.st raw names }
+  else { c with st := execRead c.st d raw names }
 
-def execCatC (c : CState) (bodies : List (List Char)) (here : Option Nat) : CState :=
+def execCatC (c : CState) (here : Option (List Char)) : CState :=
   match here with
-  | some k => { c with st := execCat c.st bodies (some k) }
+  | some k => { c with st := execCat c.st (some k) }
   | none =>
     if c.st.shared then
       let all := drainC [] c.src
@@ -73,32 +73,35 @@ def execCatC (c : CState) (bodies : List (List Char)) (here : Option Nat) : CSta
                           out := (outLines (all.length + 1) all).reverse ++ c.st.out, status := 0,
                           hitEof := c.st.hitEof || c.st.shared },
         src := [] }
-    else { c with st := execCat c.st bodies none }
+    else { c with st := execCat c.st none }
 
-def execSimpleC (c : CState) (bodies : List (List Char)) (fields : List String) (here : Option Nat) :
+def execSimpleC (c : CState) (fields : List String) (here : Option (List Char)) :
     CState :=
   match fields with
-  | [] => { c with st := execSimple c.st bodies [] here }
+  | [] => { c with st := execSimple c.st [] here }
   | name :: args =>
     match classify name with
     | .read =>
-      if args.head? == some "-r" then execReadC c true (args.drop 1) else execReadC c false args
-    | .cat => execCatC c bodies here
-    | u => { c with st := execUtil c.st bodies u name args here }
+      execReadC c (parseReadArgs args false 10).2.1 (parseReadArgs args false 10).1
+        (parseReadArgs args false 10).2.2
+    | .cat => execCatC c here
+    | u => { c with st := execUtil c.st u name args here }
 
 /-- one step: a simple command may read the descriptor; everything else is the flat machine's step -/
-def stepC (bodies : List (List Char)) (k : List K) (c : CState) : Option (List K × CState) :=
+def stepC (k : List K) (c : CState) : Option (List K × CState) :=
   match k with
   | .cmd (.simple ws here) :: k' =>
-    some (k', execSimpleC c bodies (expandWords c.st.vars c.st.status ws) here)
-  | k => (step bodies k c.st).map fun r => (r.1, { c with st := r.2 })
+    (match nested (expandWords c.st.vars c.st.status ws) with
+     | some (text, echoes) => some (.src text echoes false :: k', c)
+     | none => some (k', execSimpleC c (expandWords c.st.vars c.st.status ws) here))
+  | k => (step k c.st).map fun r => (r.1, { c with st := r.2 })
 
-def runKC (bodies : List (List Char)) : Nat → List K → CState → CState × Bool
+def runKC : Nat → List K → CState → CState × Bool
   | 0, _, c => (c, false)
   | n + 1, k, c =>
-    match stepC bodies k c with
+    match stepC k c with
     | none => (c, true)
-    | some (k', c') => runKC bodies n k' c'
+    | some (k', c') => runKC n k' c'
 
 def pullOfC (c : CState) : PulledC :=
   pullC (parserOf c.st) (c.src.flatten.length + 1) [] c.src
@@ -117,16 +120,21 @@ def loopC : Nat → CState → List (List Byte) → CState × Outcome × List (L
   | 0, c, log => (c, .outOfFuel, log)
   | n + 1, c, log =>
     match (pullOfC c).res with
-    | .none => (afterPullC c, .eof, log ++ [(pullOfC c).text])
+    | .none =>
+      ({ afterPullC c with
+         st := { (afterPullC c).st with hitEof := c.st.hitEof || !(pullOfC c).text.isEmpty } }, .eof,
+       log ++ [(pullOfC c).text])
     | .error =>
       ({ afterPullC c with st := { (afterPullC c).st with status := 2 } }, .syntaxError,
        log ++ [(pullOfC c).text])
     | .incomplete =>
       ({ afterPullC c with st := { (afterPullC c).st with status := 2 } }, .syntaxError,
        log ++ [(pullOfC c).text])
-    | .ok cs bodies =>
-      let r := runKC bodies execFuel (cmds cs) (atExecC c)
-      if r.2 then loopC n r.1 (log ++ [(pullOfC c).text])
+    | .ok cs =>
+      let r := runKC execFuel (cmds cs) (atExecC c)
+      if r.2 then
+        (if r.1.st.aborted then (r.1, .syntaxError, log ++ [(pullOfC c).text])
+         else loopC n r.1 (log ++ [(pullOfC c).text]))
       else (r.1, .outOfFuel, log ++ [(pullOfC c).text])
 
 /-- a stdin-fed shell (`sh -s`) whose standard input delivers the script in the given chunks -/
